@@ -221,7 +221,7 @@ func runC18(c *Ctx) {
 	for i := 0; i < n; i++ {
 		r := rng.Fork()
 		cid := fmt.Sprintf("c18-%d", i)
-		o := ATGenOpts{AllowFindings: r.Chance(20), NullableVals: r.Chance(50), StrPK: r.Chance(30), PKUpdates: r.Chance(50), BigInts: r.Chance(10), ContinueOnError: r.Chance(40)}
+		o := ATGenOpts{AllowFindings: r.Chance(20), NullableVals: r.Chance(50), StrPK: r.Chance(30), PKUpdates: r.Chance(50), BigInts: r.Chance(10), ContinueOnError: r.Chance(40), Upserts: r.Chance(30)}
 		cs := genATCase(r, w, cid, o)
 		cs.Locals = cs.Locals[:1]
 		cs.OnlyCare = r.Bool()
@@ -283,6 +283,79 @@ func runC18(c *Ctx) {
 					}
 				}
 				touched := map[string]bool{}
+				if step.st.Kind == 'Y' {
+					// INSERT … ON DUPLICATE KEY UPDATE: the rows stored under the statement's keys; those that existed
+					// are recorded as an UPDATE item, those that were inserted as an INSERT item (in that order)
+					existed, inserted := map[string]bool{}, map[string]bool{}
+					for _, row := range step.st.Rows {
+						parts := make([]string, len(sc.PK))
+						for k, p := range sc.PK {
+							parts[k] = keyText(row[p].Val.Go())
+						}
+						key := strings.Join(parts, "_")
+						if _, ok := step.before[key]; ok {
+							existed[key] = true
+						} else {
+							inserted[key] = true
+						}
+					}
+					nontrivial = true
+					allCols := map[int]bool{}
+					for ci := range sc.Cols {
+						allCols[ci] = true
+					}
+					checkY := func(name string, img map[string]map[int]string, db map[string][]string, want map[string]bool) {
+						if len(img) != len(want) {
+							fail(name+"_image_of_upsert_has_wrong_rows", fmt.Sprintf("statement %d: image %v, expected keys %v", si, img, sortedBoolKeys(want)))
+						}
+						for k, cells := range img {
+							row, ok := db[k]
+							if !want[k] || !ok {
+								fail(name+"_image_of_upsert_has_wrong_rows", fmt.Sprintf("statement %d: row %s", si, k))
+								continue
+							}
+							for ci := range allCols {
+								if v, has := cells[ci]; !has || ci >= len(row) || row[ci] != v {
+									fail(name+"_image_wrong_content", fmt.Sprintf("statement %d row %s column %d: image %v database %v", si, k, ci, cells, row))
+								}
+							}
+						}
+					}
+					if len(existed) > 0 {
+						if next >= len(items) {
+							fail("changed_rows_not_recorded", fmt.Sprintf("statement %d (upsert): no item for the existing rows", si))
+							break
+						}
+						it := items[next]
+						next++
+						if it.kind != types.SQLTypeUpdate {
+							fail("wrong_item_kind", fmt.Sprintf("statement %d: item kind %v for the existing rows of an upsert", si, it.kind))
+						}
+						checkY("before", it.before, step.before, existed)
+						checkY("after", it.after, step.after, existed)
+					}
+					if len(inserted) > 0 {
+						if next >= len(items) {
+							fail("changed_rows_not_recorded", fmt.Sprintf("statement %d (upsert): no item for the inserted rows %v", si, sortedBoolKeys(inserted)))
+							break
+						}
+						it := items[next]
+						next++
+						if it.kind != types.SQLTypeInsert {
+							fail("wrong_item_kind", fmt.Sprintf("statement %d: item kind %v for the inserted rows of an upsert", si, it.kind))
+						}
+						if len(it.before) != 0 {
+							fail("before_image_of_insert_not_empty", "")
+						}
+						checkY("after", it.after, step.after, inserted)
+					}
+					for k := range changed {
+						if !existed[k] && !inserted[k] {
+							fail("changed_row_outside_where", fmt.Sprintf("statement %d row %s", si, k))
+						}
+					}
+					continue
+				}
 				switch step.st.Kind {
 				case 'X':
 					for k := range changed {
